@@ -35,7 +35,7 @@ Definition raw_obs (fs : list file) (qs folders : list str) : list (list (list N
    map (fun q => code (raw_lookup_ops raw_open_ops fs q)) qs]
   ++ map (fun f => map fst (raw_walk raw_walk_ops fs f)) folders.
 Definition mk_chain (ms : list ((N * list file * str) * bool)) : list member :=
-  fold_left (fun acc x => add_sys chain_prio_index (snd x) (member_of (cfg_of (fst (fst (fst x)))) (snd (fst (fst x))) (snd (fst x))) acc) ms [].
+  fold_left (fun acc x => add_sys2 chain_prio_action chain_plain_action (snd x) (member_of (cfg_of (fst (fst (fst x)))) (snd (fst (fst x))) (snd (fst x))) acc) ms [].
 Definition ordered (ms : list member) (fwd : bool) := if fwd then ms else rev ms.
 Definition chain_obs (ms : list ((N * list file * str) * bool)) (qs folders : list str) : list (list (list N)) :=
   let c := mk_chain ms in
@@ -288,7 +288,7 @@ def _files_lit(files) -> str:
 
 
 def corr_backends(ck: Ck, root: str) -> None:
-    n = ck.budget(50, 400)
+    n = ck.budget(40, 400)
     cases = []
     for i in range(n):
         rng = ck.rng
@@ -392,7 +392,7 @@ def corr_backends(ck: Ck, root: str) -> None:
 
 def corr_chain(ck: Ck, root: str) -> None:
     from srctools.filesys import FileSystemChain
-    n = ck.budget(60, 400)
+    n = ck.budget(50, 400)
     cases = []
     for i in range(n):
         rng = ck.rng
@@ -996,7 +996,8 @@ def run(ck: Ck) -> None:
         obs['raw_delegates_to_os'] = 'raw_is_os_exact'
         for what in ('get', 'exists', 'open', 'walk'):
             obs[f'raw_{what}_converts_slashes_only'] = f'raw_ops_ok raw_{what}_ops'
-        obs['chain_priority_inserts_first'] = 'Nat.eqb chain_prio_index 0'
+        obs['chain_priority_inserts_first'] = 'match chain_prio_action with InsertAt O => true | _ => false end'
+        obs['chain_plain_appends_last'] = 'match chain_plain_action with Append => true | _ => false end'
         obs['chain_get_in_member_order'] = 'chain_get_forward'
         obs['chain_get_joins_prefix'] = 'match chain_get_join_ops with cons OSlash nil => true | _ => false end'
         obs['chain_walk_in_member_order'] = 'chain_walk_forward'
@@ -1048,6 +1049,7 @@ def run(ck: Ck) -> None:
     if any_key('chain-get-not-first-match'):
         ck.explain('instance:chain_get_in_member_order')
         ck.explain('instance:chain_priority_inserts_first')
+        ck.explain('instance:chain_plain_appends_last')
         ck.explain('instance:chain_get_joins_prefix')
     if any_key('chain-walk-entry-not-from-first-member', 'chain-walk-listed-name-not-found', 'chain-walk-dedup-is-not-first-of-repeat'):
         ck.explain('instance:chain_dedup_keeps_first_member')
